@@ -494,7 +494,7 @@ class TMLE:
             ic = np.where(delta == 1,
                           (1 / np.mean(Qstar1) * (H1W * (self.df[self.outcome] - Qstar) + Qstar1 - np.mean(Qstar1)) -
                            (1/np.mean(Qstar0)) * (-1 * H0W * (self.df[self.outcome] - Qstar) + Qstar0 - np.mean(Qstar0))),
-                          (Qstar1 - np.mean(Qstar1)) + Qstar0 - np.mean(Qstar0))
+                          (Qstar1 - np.mean(Qstar1)) / np.mean(Qstar1) - (Qstar0 - np.mean(Qstar0)) / np.mean(Qstar0))
 
             seIC = np.sqrt(np.nanvar(ic, ddof=1) / self.df.shape[0])
             self.risk_ratio_se = seIC
